@@ -95,6 +95,7 @@ def run(ctx):
                 'TLC (InverseLaws) evaluates the laws.  non-trivial = every table; distinct by (family, theta)') % (nchain, npts + 1, npts + 1)
     ctx.assumptions = ['the inverse is judged through the implementation\'s own partial_derivative (C07 ties that to the CDF)']
     jobs = [(fam, pos, th, npts) for fam in O.FAMS4 for pos, th in enumerate(O.chain(fam, nchain), 1)]
+    jobs += [('Frank', 90, 5e-8, npts), ('Frank', 91, -3e-8, npts)]      # Frank's parameter may be arbitrarily close to 0
     jobs += [(fam, 80 + i, float(t), npts, 1) for fam, ts in (('Clayton', (2, 5)), ('Gumbel', (2, 5)), ('Frank', (-3, 4))) for i, t in enumerate(ts)]      # integer-typed parameters
     with Pool(16) as pool:
         obs = pool.map(O.Safe(_observe), jobs, chunksize=1)
